@@ -7,10 +7,10 @@ git apply $SD/patch.diff || { echo "PATCH-APPLY-FAILED"; exit 2; }
 cmake --build _build >/dev/null 2>&1 || { echo "BUILD-FAILED"; git checkout -q -- spqlios; exit 2; }
 T=$(ctest --test-dir _build -j8 --timeout 900 2>&1 | grep -E "tests passed|tests failed" | head -1)
 N=$(./_build/test/spqlios-test 2>&1 | grep -E "^\[  PASSED  \]|^\[  FAILED  \]" | head -2 | tr '\n' ' ')
-gcc -O1 -I$WT/spqlios $SD/demo.c $WT/_build/spqlios/libspqlios.a -lm -o /tmp/seed_demo 2>/dev/null || gcc -O1 -mavx2 -I$WT/spqlios $SD/demo.c $WT/_build/spqlios/libspqlios.a -lm -o /tmp/seed_demo
-/tmp/seed_demo >/tmp/seed_demo.out 2>&1; D1=$?
+gcc -O1 -I$WT/spqlios $SD/demo.c $WT/_build/spqlios/libspqlios.a -lm -o $WT/_seed_demo 2>/dev/null || gcc -O1 -mavx2 -mfma -I$WT/spqlios $SD/demo.c $WT/_build/spqlios/libspqlios.a -lm -o $WT/_seed_demo
+$WT/_seed_demo >$WT/_seed_demo.out 2>&1; D1=$?
 git checkout -q -- spqlios
 cmake --build _build >/dev/null 2>&1
-gcc -O1 -I$WT/spqlios $SD/demo.c $WT/_build/spqlios/libspqlios.a -lm -o /tmp/seed_demo 2>/dev/null || gcc -O1 -mavx2 -I$WT/spqlios $SD/demo.c $WT/_build/spqlios/libspqlios.a -lm -o /tmp/seed_demo
-/tmp/seed_demo >/dev/null 2>&1; D0=$?
+gcc -O1 -I$WT/spqlios $SD/demo.c $WT/_build/spqlios/libspqlios.a -lm -o $WT/_seed_demo 2>/dev/null || gcc -O1 -mavx2 -mfma -I$WT/spqlios $SD/demo.c $WT/_build/spqlios/libspqlios.a -lm -o $WT/_seed_demo
+$WT/_seed_demo >/dev/null 2>&1; D0=$?
 echo "with-change: ctest='$T' gtest='$N' demo_exit=$D1 ; without: demo_exit=$D0"
